@@ -49,7 +49,7 @@ def accumulatedM (t o : TriggerTracker) (acc : Accumulation) : Vec3 :=
   | .Cumulative => a + b
 
 theorem tracker_combine (t o : TriggerTracker) (acc : Accumulation) :
-    trackerM (t.combine o (accumulatedM t o acc)) = (trackerM t).combine (trackerM o) acc.toModel := by
+    trackerM (t.combine_with o (accumulatedM t o acc)) = (trackerM t).combine (trackerM o) acc.toModel := by
   have ht := value_as_axis3d t.value
   have ho := value_as_axis3d o.value
   have hx : ∀ (p : Vec3), (ActionValue.vAxis3D p).toModel = Value.a3 p.x p.y p.z := fun _ => rfl
